@@ -213,6 +213,8 @@ pub fn prop() -> HistProp {
     w.ecfg = 10;
     w.vcfg = 12;
     w.whitelist = 5;
+    // the pauser role changes hands: to a trading account and back (holding a role is not being whitelisted)
+    w.handover = 2;
     w.register = 3;
     w.alien = 3;
     w.squeeze = 2;
